@@ -17,3 +17,29 @@ func vkEnvInt(name string, def int) int {
 }
 
 func quietLogger() *slog.Logger { return slog.New(slog.NewTextHandler(io.Discard, &slog.HandlerOptions{Level: slog.LevelError + 100})) }
+
+func unhexs(s string) []byte {
+	var out []byte
+	var cur, n byte
+	for i := 0; i < len(s); i++ {
+		ch := s[i]
+		var v byte
+		switch {
+		case ch >= '0' && ch <= '9':
+			v = ch - '0'
+		case ch >= 'a' && ch <= 'f':
+			v = ch - 'a' + 10
+		case ch >= 'A' && ch <= 'F':
+			v = ch - 'A' + 10
+		default:
+			continue
+		}
+		cur = cur<<4 | v
+		n++
+		if n == 2 {
+			out = append(out, cur)
+			cur, n = 0, 0
+		}
+	}
+	return out
+}
